@@ -163,3 +163,18 @@ Theorem C15_whole_step : forall c w s a argv,
   = Some (c, LC.s_env s, LC.s_cmd s, run (LC.s_env s) c (LC.s_users s) (LC.s_cmd s) (LC.world_of w)).
 Proof. exact whole_step. Qed.
 Print Assumptions C15_whole_step.
+
+(* (h) end to end: -p written anywhere on a structured command line -- among the global options or
+   among the command's words -- makes the whole binary (configuration loading, dispatch, command;
+   every modelled command, every configuration the files yield, every world, every fault plan)
+   leave the world as it is: no operation counted, none logged *)
+From LC Require Import Proofs.WholePretendP.
+Theorem C15_binary_pretend : forall pre cmd post locals lo hi flt order um w c e k r,
+  forallb pre_ok pre = true ->
+  command_info cmd = Some (locals, lo, hi) ->
+  forallb (local_ok locals) post = true ->
+  existsb is_p (pre ++ post) = true ->
+  run_binary (render_toks pre ++ [cmd] ++ render_toks post) flt order um w = Some (c, e, k, r) ->
+  e_pretend e = true /\ snd r = MkSt w 0 [].
+Proof. exact binary_pretend. Qed.
+Print Assumptions C15_binary_pretend.
